@@ -336,4 +336,36 @@ theorem printSpace_facts (H W : Int) (blocks : List Box) (hne : blocks ≠ [])
     · exact ⟨b0, hb0, by clear v3 h3 b3; omega⟩
     · exact h
 
+theorem pySplitAux_append_word (isSpace : Nat → Bool) (w : Str) (hw : ∀ c ∈ w, isSpace c = false) :
+    ∀ (cur rest : Str), pySplitAux isSpace cur (w ++ rest) = pySplitAux isSpace (cur ++ w) rest := by
+  induction w with
+  | nil => intro cur rest; simp
+  | cons c w ih =>
+    intro cur rest
+    have hc : isSpace c = false := hw c (by simp)
+    have := ih (fun d hd => hw d (by simp [hd])) (cur ++ [c]) rest
+    simp [pySplitAux, hc, this, List.append_assoc]
+
+theorem pySplit_reimport (isSpace : Nat → Bool) (h32 : isSpace 32 = true) :
+    ∀ (ws : List Str), (∀ w ∈ ws, w ≠ [] ∧ ∀ c ∈ w, isSpace c = false) →
+      pySplitAux isSpace [] (reimportLine ws) = ws := by
+  intro ws
+  induction ws with
+  | nil => intro _; simp [reimportLine, pySplitAux]
+  | cons w r ih =>
+    intro h
+    have hw := h w (by simp)
+    cases r with
+    | nil =>
+      have := pySplitAux_append_word isSpace w hw.2 [] []
+      simp only [List.append_nil, List.nil_append] at this
+      simp [reimportLine, this, pySplitAux, hw.1]
+    | cons w2 r2 =>
+      have hr := ih (fun x hx => h x (by simp [hx]))
+      have := pySplitAux_append_word isSpace w hw.2 [] ([32] ++ reimportLine (w2 :: r2))
+      simp only [List.nil_append] at this
+      simp only [reimportLine, List.append_assoc]
+      rw [this]
+      simp [pySplitAux, h32, hw.1, hr]
+
 end Alto
